@@ -145,6 +145,24 @@ func (w *World) LoopTerminates(fn *ssa.Function, hb *ssa.BasicBlock) (bool, stri
 		}
 		tried = append(tried, name+": not strictly monotone")
 	}
+	// lexicographic pair (p, q): p never increases and is bounded below where it
+	// strictly decreases; on the remaining back edges q makes bounded progress
+	if ok, why := w.lexLoop(fi, hb, backs, func(ec *Ctx, q *ssa.Phi) bool {
+		for _, bd := range bounds {
+			var u lin.Form
+			if bd.isLen {
+				u = ec.LenOf(bd.v)
+			} else {
+				u = ec.Lin(bd.v)
+			}
+			if ec.Entails(lin.LE(ec.phiTerm(q), u)) {
+				return true
+			}
+		}
+		return false
+	}); ok {
+		return true, why
+	}
 	// captured cells used as loop counters
 	if ok, why := w.cellLoop(fi, hb, backs); ok {
 		return true, why
@@ -228,8 +246,11 @@ func (w *World) Cycles(scope []*ssa.Function) [][]*ssa.Function {
 // RecursionDecreases: a self-recursive function needs an integer parameter
 // that strictly decreases and stays >= 0 at every recursive call.
 func (w *World) RecursionDecreases(cyc []*ssa.Function) (bool, string) {
+	if len(cyc) == 2 {
+		return w.mutualDecreases(cyc[0], cyc[1])
+	}
 	if len(cyc) != 1 {
-		return false, "mutual recursion is not analysed"
+		return false, "mutual recursion through more than two functions is not analysed"
 	}
 	fn := cyc[0]
 	fi := w.Info(fn)
@@ -326,4 +347,138 @@ func (fi *FuncInfo) loopInvariantLoad(v ssa.Value, hb *ssa.BasicBlock) bool {
 		}
 	}
 	return true
+}
+
+// mutualDecreases: A calls B, B calls A (and neither calls itself). A measure
+// exists when some integer parameter j of A and k of B satisfy: at every call
+// A→B the argument for k is <= A's j; at every call B→A the argument for j is
+// < B's k and >= 0. Then A's j strictly decreases on every round trip.
+func (w *World) mutualDecreases(a, b *ssa.Function) (bool, string) {
+	callsTo := func(from, to *ssa.Function) []*ssa.Call {
+		var out []*ssa.Call
+		for _, bl := range from.Blocks {
+			for _, in := range bl.Instrs {
+				if c, ok := in.(*ssa.Call); ok && c.Common().StaticCallee() == to {
+					out = append(out, c)
+				}
+			}
+		}
+		return out
+	}
+	for _, pair := range [][2]*ssa.Function{{a, b}, {b, a}} {
+		A, B := pair[0], pair[1]
+		if len(callsTo(A, A)) > 0 || len(callsTo(B, B)) > 0 {
+			return false, "a function of the cycle also calls itself"
+		}
+		ab, ba := callsTo(A, B), callsTo(B, A)
+		if len(ab) == 0 || len(ba) == 0 {
+			continue
+		}
+		fa, fb := w.Info(A), w.Info(B)
+		for j, pj := range A.Params {
+			if _, _, ok := isIntType(pj.Type()); !ok {
+				continue
+			}
+			for k, pk := range B.Params {
+				if _, _, ok := isIntType(pk.Type()); !ok {
+					continue
+				}
+				ok := true
+				for _, call := range ab {
+					c := fa.ctxBefore(call)
+					if !c.Prove(lin.LE(c.Lin(call.Common().Args[k]), c.Lin(pj))) {
+						ok = false
+						break
+					}
+				}
+				if !ok {
+					continue
+				}
+				for _, call := range ba {
+					c := fb.ctxBefore(call)
+					arg := c.Lin(call.Common().Args[j])
+					if !(c.Prove(lin.LT(arg, c.Lin(pk))) && c.Prove(lin.GE0(arg))) {
+						ok = false
+						break
+					}
+				}
+				if ok {
+					return true, fmt.Sprintf("%s's parameter %s is handed to %s as %s (<=) and comes back strictly smaller and >= 0 at each of the %d calls back", A.Name(), pj.Name(), B.Name(), pk.Name(), len(ba))
+				}
+			}
+		}
+	}
+	return false, "no integer parameter decreases round the two-function cycle"
+}
+
+func (w *World) lexLoop(fi *FuncInfo, hb *ssa.BasicBlock, backs []int, boundedAbove func(ec *Ctx, q *ssa.Phi) bool) (bool, string) {
+	var phis []*ssa.Phi
+	for _, in := range hb.Instrs {
+		p, ok := in.(*ssa.Phi)
+		if !ok {
+			break
+		}
+		if phiIsInt(p) || phiIsLen(p) {
+			phis = append(phis, p)
+		}
+	}
+	ctxs := map[int]*Ctx{}
+	for _, i := range backs {
+		ctxs[i] = fi.CtxEdge(hb.Preds[i], hb)
+	}
+	delta := func(p *ssa.Phi, i int) lin.Form {
+		ec := ctxs[i]
+		return ec.quant(p.Edges[i], phiIsLen(p)).Sub(ec.phiTerm(p))
+	}
+	for _, p := range phis {
+		var rest []int
+		ok := true
+		for _, i := range backs {
+			ec := ctxs[i]
+			d := delta(p, i)
+			if !ec.Entails(lin.LE(d, lin.K(0))) {
+				ok = false
+				break
+			}
+			if ec.Entails(lin.LE(d, lin.K(-1))) {
+				// strictly decreasing edge: needs the lower bound
+				if !phiIsLen(p) && !ec.Entails(lin.GE(ec.quant(p.Edges[i], false), lin.K(-1))) {
+					ok = false
+					break
+				}
+				continue
+			}
+			rest = append(rest, i)
+		}
+		if !ok || len(rest) == 0 || len(rest) == len(backs) {
+			continue
+		}
+		for _, q := range phis {
+			if q == p {
+				continue
+			}
+			inc, dec := true, true
+			for _, i := range rest {
+				ec := ctxs[i]
+				d := delta(q, i)
+				if !(ec.Entails(lin.GE(d, lin.K(1))) && boundedAbove(ec, q)) {
+					inc = false
+				}
+				if !(ec.Entails(lin.LE(d, lin.K(-1))) && (phiIsLen(q) || ec.Entails(lin.GE(ec.phiTerm(q), lin.K(-1))))) {
+					dec = false
+				}
+			}
+			if inc || dec {
+				pn, qn := p.Comment, q.Comment
+				if pn == "" {
+					pn = p.Name()
+				}
+				if qn == "" {
+					qn = q.Name()
+				}
+				return true, fmt.Sprintf("lexicographic measure (%s, %s): %s never increases and strictly decreases (bounded below) on %d back edge(s); on the other %d, %s makes bounded progress", pn, qn, pn, len(backs)-len(rest), len(rest), qn)
+			}
+		}
+	}
+	return false, ""
 }
